@@ -31,7 +31,7 @@ namespace AIToolbox::Factored {
         assert(wsize == bases.size() || wsize == bases.size() + 1);
 
         const bool add = (wsize == bases.size() + 1);
-        const double toAdd = weights[wsize - 1] / bases.size();
+        const double toAdd = add ? weights[wsize - 1] / bases.size() : 0.0;
         for (size_t i = 0; i < bases.size(); ++i) {
             bases[i].values *= weights[i];
             if (add) bases[i].values.array() += toAdd;
@@ -98,7 +98,7 @@ namespace AIToolbox::Factored {
         assert(wsize == bases.size() || wsize == bases.size() + 1);
 
         const bool add = (wsize == bases.size() + 1);
-        const double toAdd = weights[wsize - 1] / bases.size();
+        const double toAdd = add ? weights[wsize - 1] / bases.size() : 0.0;
         for (size_t i = 0; i < bases.size(); ++i) {
             bases[i].values *= weights[i];
             if (add) bases[i].values.array() += toAdd;
